@@ -60,7 +60,7 @@ DateFilterBuild ==
 
 DateFilterContains(i, p) ==
   /\ i \in 1..Len(dFilt)
-  /\ dRet' = Ok(Contains(dFilt[i], p))
+  /\ dRet' = Ok(FContains(dFilt[i], p))
   /\ UNCHANGED <<dMax, dRecv, dFilt, dVars>>
 
 =============================================================================
